@@ -68,6 +68,21 @@ CHECKS += [
           "every constructor parameter and pairs.",
   "note": "L = list(fresh uncached equal object) is the reference sequence."},
 ]
+CHECKS += [
+ {"id": "C06", "engine": "E1-shape + per-zone timeline walk",
+  "technique": "exhaustive walk of every transition of every distinct TZif file and of synthetic TZif shapes against an independent decoder; all load paths compared",
+  "text": "Every distinct TZif file of the installed database (447) and 16 synthetic files (negative DST, consecutive DST types, base change with DST change, same-offset type changes, "
+          "first transition into DST / fold / gap, sub-minute offsets, no transitions, one type) are decoded independently; at every transition x 17 probe offsets (thorough: +-5 s of each "
+          "and every 7 min within +-26 h) inside [t_first, t_last) and before the first transition the library must report the data's offset, abbreviation and dst()==0 on standard types. "
+          "gettz / path / stream / BytesIO / in-memory archive (hard link, sym link, METADATA) / pickle 2-5 / copy / deepcopy must be equal and answer identically.",
+  "note": "Corpus = system zoneinfo (the vendored tarball is absent from this tree); only the v1 data block (1901..2038) is decoded by library and reference; decoder cross-checked against CPython zoneinfo."},
+ {"id": "C08", "engine": "E1-shape",
+  "technique": "deviation-bounded exhaustive enumeration of POSIX TZ rule specs x zone classes x transition neighbourhoods against an independent POSIX evaluator cross-checked with glibc",
+  "text": "All rule specs with <= k deviations (k=3 quick, 4 thorough) from EST5EDT,M3.2.0,M11.1.0 over offsets (half-hour, two-hour savings), M/J/n rule forms, times 0..26h, hemisphere, "
+          "explicit/default DST offset; for tzstr, gettz, tzrange (equivalent relativedeltas) and tzlocal under TZ, offset/abbreviation/DST status at both transitions of 2023-2025 x probe offsets "
+          "must equal the reference, which is compared with glibc on every probe (0 mismatches required). Fixed-offset strings, GMT+h sign and a malformed-string menu are checked too.",
+  "note": "Trusts refs/posix_tz_ref.py (+glibc as second opinion). Negative savings and rules near the year boundary are outside the alphabet."},
+]
 _claimed = {c["id"] for c in CHECKS}
 NOT_APPLICABLE = [{"property_id": p, "reason": "check not built yet (work in progress; see DESIGN.md §5 build order)"}
                   for p in ALL if p not in _claimed]
